@@ -28,6 +28,17 @@ theorem C03_no_mutable_default_is_mutated : EEM.Gen.Nondet.mutableDefaults.all (
 theorem C03_no_global_statements : EEM.Gen.Nondet.globalStatements = [] := by
   decide +kernel
 
+/-- **no function writes into a module-level container**: nothing a fit does can be found again by a
+later fit in the same process through module state (caches, registries, accumulators) -/
+theorem C03_no_module_state_is_written : EEM.Gen.Nondet.moduleStateWrites = [] := by
+  decide +kernel
+
+/-- **memoisation is per object only** (`cached_property` of the metrics frames); no process-wide
+`lru_cache` / `cache` has appeared -/
+theorem C03_memoised_functions_are_the_known_ones :
+    EEM.Gen.Nondet.memoisedFunctions = EEM.Spec.Nondet.memoisedFunctions := by
+  decide +kernel
+
 /-- **a given seed is used as given**: whatever the global RNG would have produced -/
 theorem C03_seed_given_ignores_global (s g₁ g₂ : Nat) : effectiveSeed (some s) g₁ = effectiveSeed (some s) g₂ := rfl
 
